@@ -99,8 +99,35 @@ def facts_at(fn, prog, bb, tb=None, _depth=0):
     return out
 
 
+def checked_outcome(cond, truth):
+    """`x.checked_sub(c)` is None exactly when x < c (x == 0 for c = 1), `checked_add/mul` outcomes say nothing usable: a test of
+    the Option's discriminant is restated as the comparison it stands for. Returns (term, truth) or None."""
+    if cond[0] == "op" and cond[1] in ("Eq", "Ne") and len(cond[2]) == 2:
+        a, b = cond[2]
+        if b[0] == "call" and b[1] == "discriminant":
+            a, b = b, a
+        if a[0] == "call" and a[1] == "discriminant" and b[0] == "const" and b[1] in (0, 1) and a[2][0][0] == "call" and a[2][0][1] == "checked":
+            inner = a[2][0][2][0]
+            if inner[0] == "op" and inner[1] == "Sub" and len(inner[2]) == 2:
+                is_none = (b[1] == 0) == ((cond[1] == "Eq") == bool(truth))
+                x, c = inner[2]
+                if c == const(1):
+                    return (mk("Eq", x, const(0)), is_none)
+                return (mk("Lt", x, c), is_none)
+    if cond[0] == "call" and cond[1].endswith(("::is_some", "::is_none")) and len(cond[2]) == 1 and cond[2][0][0] == "call" and cond[2][0][1] == "checked":
+        inner = cond[2][0][2][0]
+        if inner[0] == "op" and inner[1] == "Sub" and len(inner[2]) == 2:
+            is_none = cond[1].endswith("is_none") == bool(truth)
+            x, c = inner[2]
+            return (mk("Eq", x, const(0)), is_none) if c == const(1) else (mk("Lt", x, c), is_none)
+    return None
+
+
 def decompose(cond, truth, prog=None, depth=0):
     """split conjunctions/disjunctions/negations into atomic (term, truth) facts"""
+    co = checked_outcome(cond, truth)
+    if co is not None:
+        return [co]
     if cond[0] == "op":
         name, args = cond[1], cond[2]
         if name == "Not":
